@@ -50,3 +50,44 @@ def fastHashPath [DecidableEq Hh] (D : List B → Hh) (ci : CacheEnt Hh) (mtime 
     ({ mtime := mtime, qhash := some q', fhash := some r.1 }, q')
 
 end CS.FsHash
+
+/-
+The event cursor of `FileSystemProvider` (filesystem.py:400-419 `latest_cursor` / `current_cursor` and its
+setter, 459-476 `events`).  Cursors are plain integers starting at 0; the watchdog thread appends an event
+and increments `_latest_cursor`; `events()` yields the events with index `_cursor+1 … _latest_cursor`
+(their `new_cursor` stamps) and leaves `_cursor = _latest_cursor`.  The pruning window (`_event_window`,
+1000 events) is not modelled: `_evoffset = 0`.
+-/
+namespace CS.FsCursor
+
+structure St where
+  cursor : Nat      -- `_cursor`
+  latest : Nat      -- `_latest_cursor` = number of events received so far
+
+inductive Val where
+  | none            -- Python None
+  | int (n : Nat)   -- a non-negative int
+  | other           -- anything that is not an int
+  deriving Repr, DecidableEq
+
+inductive Res where
+  | ok
+  | cursorErr       -- CloudCursorError
+  deriving Repr, DecidableEq
+
+/-- the setter, branch by branch: None → latest; non-int → CloudCursorError; beyond `latest + 1` →
+    CloudCursorError; else assigned -/
+def setCursor (s : St) : Val → St × Res
+  | .none => ({ s with cursor := s.latest }, .ok)
+  | .other => (s, .cursorErr)
+  | .int v => if v > s.latest + 1 then (s, .cursorErr) else ({ s with cursor := v }, .ok)
+
+/-- `events()` drained: the `new_cursor` stamps yielded, and the cursor moved to the end
+    (unchanged when it is already at or beyond the end) -/
+def drain (s : St) : St × List Nat :=
+  ({ s with cursor := max s.cursor s.latest }, (List.range (s.latest - s.cursor)).map (fun i => s.cursor + i + 1))
+
+/-- the watchdog thread delivered `n` more events -/
+def receive (s : St) (n : Nat) : St := { s with latest := s.latest + n }
+
+end CS.FsCursor
